@@ -1,6 +1,6 @@
 (* C10 — application requests: eligible peer, fresh identifiers, answer correlation
    Statements copied from the proof files; each is closed by `exact`. *)
-From DV Require Prelude.Base Model.Ids Proofs.IdsP Model.Node Proofs.NodeC.
+From DV Require Prelude.Base Model.Ids Proofs.IdsP Model.Node Proofs.NodeA Proofs.NodeC Proofs.NodeD Proofs.NodeF.
 From Coq Require String List Lia Bool Arith ZArith.
 
 Module FromNodeC.
@@ -98,6 +98,56 @@ Theorem C10_duplicate_ignored n m i a n1 o1 :
 Proof. exact (@NodeC.C10_duplicate_ignored n m i a n1 o1). Qed.
 End FromNodeC.
 
+Module FromNodeF.
+Import DV.Prelude.Base DV.Model.Node DV.Proofs.NodeC DV.Proofs.NodeF.
+Import Coq.micromega.Lia.
+Local Open Scope Z_scope.
+
+(* the trace agrees with run: same outputs, event by event *)
+Theorem trace_run n evs :
+  List.map snd (trace n evs) = snd (run n evs) /\ List.map fst (trace n evs) = List.map snd evs.
+Proof. exact (@NodeF.trace_run n evs). Qed.
+
+(* C10 (history): an answer handed to application i (to its blocked caller, or as unexpected) is preceded by a send_request of the SAME application i whose step handed a request with the answer's hop-by-hop and end-to-end ids to a connection *)
+Theorem C10_history_answer_to_sender n0 evs tr1 e outs tr2 i m :
+  n_app_waiting n0 = [] ->
+  trace n0 evs = (tr1 ++ (e, outs) :: tr2)%list ->
+  List.In (OAnswerTo i m) outs \/ List.In (OUnexpected i m) outs ->
+  exists a realm pick tmo cid m' rest,
+    List.In (EAppRequest i a realm pick tmo, OQueue cid m' :: rest) tr1 /\
+    o_req m' = true /\ o_hbh m' = m_hbh m /\ o_e2e m' = m_e2e m.
+Proof. exact (@NodeF.C10_history_answer_to_sender n0 evs tr1 e outs tr2 i m). Qed.
+
+(* C10 (history): for every (hop-by-hop, end-to-end) pair, the node hands out no more answers with that pair than the applications sent requests with it *)
+Theorem C10_history_answers_le_requests n0 evs h e :
+  n_app_waiting n0 = [] -> (nans h e (trace n0 evs) <= nreq h e (trace n0 evs))%nat.
+Proof. exact (@NodeF.C10_history_answers_le_requests n0 evs h e). Qed.
+
+(* C10 (history): when the pairs of the requests the node sent are pairwise distinct, at most one answer with a given pair is handed to an application in the whole history (copies of an answer are ignored) *)
+Theorem C10_history_answer_once n0 evs h e :
+  n_app_waiting n0 = [] -> List.NoDup (req_keys (trace n0 evs)) ->
+  (List.length (List.filter (ans_key h e) (List.concat (List.map snd (trace n0 evs)))) <= 1)%nat.
+Proof. exact (@NodeF.C10_history_answer_once n0 evs h e). Qed.
+
+(* C10 (history): at every send_request of the history, either nothing but NotRoutable happens, or the request is the first output, it is handed to a connection that is ready in the state in which the event starts, and everything after it is the I/O thread's own doing (its CER / DWR, writes, closes, dials) *)
+Theorem C10_history_requests_only_to_ready n0 evs nk i a realm pick tmo outs :
+  List.In (nk, (EAppRequest i a realm pick tmo, outs)) (strace n0 evs) ->
+  outs = [ONotRoutable] \/
+  exists cid c m' rest,
+    outs = OQueue cid m' :: rest /\ List.Forall (sysout (pmap nk)) rest /\
+    o_req m' = true /\ o_cmd m' = o_cmd a /\ o_tag m' = o_tag a /\
+    get_conn nk cid = Some c /\ is_ready_state (c_state c) = true.
+Proof. exact (@NodeF.C10_history_requests_only_to_ready n0 evs nk i a realm pick tmo outs). Qed.
+
+(* C10 (history): whatever is handed to a connection during a send_request is a request; unless it is one of the I/O thread's own CER / DWR, the connection is ready in the state in which the event starts *)
+Theorem C10_history_requests_only_to_ready_in n0 evs nk i a realm pick tmo outs cid m' :
+  List.In (nk, (EAppRequest i a realm pick tmo, outs)) (strace n0 evs) ->
+  List.In (OQueue cid m') outs ->
+  o_req m' = true /\
+  (own_req m' \/ exists c, get_conn nk cid = Some c /\ is_ready_state (c_state c) = true).
+Proof. exact (@NodeF.C10_history_requests_only_to_ready_in n0 evs nk i a realm pick tmo outs cid m'). Qed.
+End FromNodeF.
+
 Print Assumptions FromNodeC.route_request_spec.
 Print Assumptions FromNodeC.C10_request_shape.
 Print Assumptions FromNodeC.C10_eligible.
@@ -105,3 +155,9 @@ Print Assumptions FromNodeC.C10_none_is_error.
 Print Assumptions FromNodeC.C10_hbh_fresh.
 Print Assumptions FromNodeC.C10_correlation.
 Print Assumptions FromNodeC.C10_duplicate_ignored.
+Print Assumptions FromNodeF.trace_run.
+Print Assumptions FromNodeF.C10_history_answer_to_sender.
+Print Assumptions FromNodeF.C10_history_answers_le_requests.
+Print Assumptions FromNodeF.C10_history_answer_once.
+Print Assumptions FromNodeF.C10_history_requests_only_to_ready.
+Print Assumptions FromNodeF.C10_history_requests_only_to_ready_in.
